@@ -66,13 +66,13 @@ func c04(args []string) error {
 	stats := map[string]int{}
 
 	type result struct {
-		class    string
-		outN     []string
-		outS     []string
-		ints     []int
-		outsN    [][]string
-		outsS    [][]string
-		hasOuts  bool
+		class   string
+		outN    []string
+		outS    []string
+		ints    []int
+		outsN   [][]string
+		outsS   [][]string
+		hasOuts bool
 	}
 	add := func(alpha int, names, seqs []string, opname, opterm string, res result, meta map[string]interface{}) {
 		outs := []string{}
